@@ -16,4 +16,8 @@ if os.path.exists(root + "/MANIFEST.json"):
     val(root + "/MANIFEST.json", "/root/.vp/MANIFEST.schema.json")
 for f in sorted(glob.glob(root + "/evidence/*.json")):
     val(f, "/root/.vp/EVIDENCE.schema.json")
+    # evidence files are read by tools with a size limit: keep them well below 5 MB
+    if os.path.getsize(f) > 1_000_000:
+        ok = False
+        print("FAIL", f, "evidence file larger than 1 MB:", os.path.getsize(f))
 sys.exit(0 if ok else 1)
